@@ -33,6 +33,7 @@ func init() {
 			"C06.R5 universal has-writer guard loop dominates the installers",
 			"C06.R6 who-may-write Active / Paused / pause flag",
 			"C06.R2e the copy of the writing state made for clients assigns every exported bool field (active, paused, one flag per file type) from the field of the same name",
+			"C06.R2c (helpers) a publisher method that calls the removers may skip them only under tests computed from the writer handles alone",
 			"C06.R8 the activity predicate of the writing state returns the Active field unaltered (it guards record-length changes and side files as 'files are open')",
 			"C06.R7 new numbered directory: success return dominated by os.IsNotExist(true) and MkdirAll; the pattern flows to all file names and to the reported state",
 		},
